@@ -25,7 +25,7 @@ REQUIRED_ANCHORS = ['mps.py:MPS.from_full', 'mps.py:MPS.from_Bflat', 'mps.py:MPS
                     'mps.py:MPS.canonical_form_infinite2', 'mps.py:MPS.entanglement_spectrum']
 BUILDERS = ['from_full', 'from_full', 'from_product_state', 'from_product_state', 'from_Bflat', 'from_Bflat', 'from_singlets',
             'from_product_mps_covering', 'from_random_unitary_evolution', 'from_desired_bond_dimension',
-            'project_onto_charge_sector', 'segment', 'infinite', 'infinite']
+            'project_onto_charge_sector', 'segment', 'infinite', 'infinite', 'from_lat_product_state']
 
 
 def plan(tier, seed, jobs):
@@ -669,6 +669,49 @@ def window_theta(psi, i0, n):
         else:
             res = np.tensordot(res, T, axes=[[-1], [0]])
     return res
+
+
+def build_from_lat_product_state(ctx, rng, i):
+    """Product state given in lattice coordinates (tiled pattern): every site holds the state of its lattice position, whatever the
+    order of the lattice is."""
+    from tenpy.networks.mps import MPS
+    import checks.C19 as C19
+    kind = str(rng.choice(['Chain', 'Ladder', 'Square', 'Honeycomb', 'Kagome', 'Triangular', 'Lattice']))
+    try:
+        lat, desc = C19.make_lattice(ctx, rng, kind)
+    except Exception:
+        raise _Skip()
+    shape = tuple(int(x) for x in lat.shape)
+    # pattern whose extent divides the lattice shape in every direction (tiled by from_lat_product_state)
+    pat_shape = tuple(int(rng.choice([d for d in range(1, n + 1) if n % d == 0])) for n in shape[:-1]) + (shape[-1], )
+    dims_u = [s_.dim for s_ in lat.unit_cell]
+    pat = np.zeros(pat_shape, dtype=int)
+    for idx in np.ndindex(*pat_shape):
+        pat[idx] = int(rng.integers(dims_u[idx[-1]]))
+    case = {'builder': 'from_lat_product_state', 'lattice': kind, 'shape': list(shape), 'order': str(desc.get('order')), 'bc_MPS': lat.bc_MPS,
+            'pattern': pat.tolist()}
+    try:
+        psi = MPS.from_lat_product_state(lat, pat, permute=False)
+        psi.test_sanity()
+    except Exception as e:
+        tb = traceback.format_exc()
+        if '/tenpy/' not in tb:
+            raise
+        ctx.violation('from_lat_product_state:raises-%s' % type(e).__name__, tb[-500:], case)
+        return
+    ctx.count('builder.from_lat_product_state')
+    if psi.L != lat.N_sites or psi.bc != lat.bc_MPS:
+        ctx.violation('from_lat_product_state:geometry', 'L %d bc %r for a lattice with %d sites, bc_MPS %r' % (psi.L, psi.bc, lat.N_sites, lat.bc_MPS), case)
+        return
+    for j in range(psi.L):
+        li = [int(x) for x in lat.mps2lat_idx(j)]
+        want = int(pat[tuple(a % b for a, b in zip(li, pat_shape))])
+        B = psi.get_B(j).to_ndarray().reshape(-1)
+        if B.shape[0] != lat.mps_sites()[j].dim or int(np.argmax(np.abs(B))) != want or not (abs(abs(B[want]) - 1) <= 1e-12):
+            ctx.violation('from_lat_product_state:wrong-state-on-site', 'MPS site %d = lattice %r holds basis state %d, pattern says %d' %
+                          (j, li, int(np.argmax(np.abs(B))), want), case)
+            return
+    ctx.sig(('from_lat_product_state', kind, shape, str(desc.get('order')), pat_shape), nontrivial=lat.dim >= 2 or shape[-1] >= 2)
 
 
 def build_infinite(ctx, rng, i):
